@@ -97,6 +97,15 @@ func registerHarnessIntrinsics() {
 		},
 		"verifDependsOn":  hDependsOn,
 		"verifUF":         hUF,
+		"verifBigHexDigits": func(e *Exec, a []Value, s *ssa.CallCommon) Value {
+			b, _ := e.opaque["lastbig"].(*bigSym)
+			if b == nil {
+				return &SliceV{off: e.c64(0), len: e.c64(0), cap: e.c64(0)}
+			}
+			arr := e.mkBytes(append([]*Term{}, b.hexDigits...), e.newObj("intrinsic", "bighex"))
+			n := e.c64(int64(len(b.hexDigits)))
+			return &SliceV{arr: arr, off: e.c64(0), len: n, cap: n}
+		},
 		"verifTraceLeaks": hTraceLeaks,
 		"verifTraceClass": func(e *Exec, a []Value, s *ssa.CallCommon) Value {
 			e.traceClass = e.mustConcreteString(a[0], "trace class")
